@@ -42,7 +42,11 @@ ASSUMPTIONS = [
 ]
 RULE = ("structures: RDKit-embedded small organics + hand templates (linear, planar, metal centre, crowded / "
         "hypervalent, near-threshold bond lengths, degenerate) on a k/64 grid, plus grid jitter; frames: exact "
-        "rational rotations (Pythagorean quaternions), translations, mirror reflections, atom permutations; a case is "
+        "rational rotations (Pythagorean quaternions), translations, mirror reflections, atom permutations (new species "
+        "from permuted atom lists AND in-place Species.reorder_atoms on a species holding its graph: all permutations "
+        "for n <= 4, cyclic shifts, 3-cycles and random ones above); make_graph called on ONE species with the tolerance "
+        "sequence default, 0.1, default, 0.5, 0.05, 0.3 on the structure and on stretched copies (bond lengths between "
+        "the cut-offs), each graph checked against the distance criterion and the model for THAT tolerance; a case is "
         "non-trivial when the structure has >= 2 atoms and (for frame cases) the transform is not the identity; "
         "distinct by (structure, transform, observable)")
 
@@ -413,7 +417,8 @@ def line_deviation_deg(g):
 class Oracles:
     def __init__(self, ctx, consts):
         self.ctx, self.nfail, self.keys, self.per_key, self.reported = ctx, 0, set(), {}, 0
-        self.ct, self.ptol = consts["lin"], consts["pl"]
+        self.ct, self.ptol, self.rel = consts["lin"], consts["pl"], consts["rel"]
+        self.seq_records, self.reorder_records = [], []
 
     def fail(self, key, what, rep):
         self.nfail += 1
@@ -425,22 +430,25 @@ class Oracles:
 
     # -- single-frame oracles: valence cap, bonded iff within tolerance, removed are the longest
     def single(self, g, ex):
-        ctx = self.ctx
         r = impl_graph(g)
-        ctx.count("impl-oracle:graph-rules", (g.name,), nontrivial=g.n >= 2)
+        self.ctx.count("impl-oracle:graph-rules", (g.name,), nontrivial=g.n >= 2)
         if r[0] != "ok":
             return r
-        edges = set(r[1])
-        rep = {"kind": "graph-rules", "structure": g.replay(), "edges": sorted(edges)}
+        self.rules(g, ex, set(r[1]), {"kind": "graph-rules", "structure": g.replay(), "edges": r[1]})
+        return r
+
+    def rules(self, g, ex, edges, rep, pre=""):
+        """valence cap / bonded iff within tolerance / removed are the longest, for the tolerance of ex"""
+        r = None
         deg = [sum(1 for e in edges if i in e) for i in range(g.n)]
         for i in range(g.n):
             if deg[i] > ex.maxval[i]:
-                self.fail("valence-cap", f"{g.name}: atom {i} ({g.syms[i]}) has {deg[i]} bonds, maximal valence {ex.maxval[i]}", rep)
+                self.fail(pre + "valence-cap", f"{g.name}: atom {i} ({g.syms[i]}) has {deg[i]} bonds, maximal valence {ex.maxval[i]}", rep)
         if ex.radius_error:
             return r
         for e in edges:
             if e not in ex.within and e not in ex.near:
-                self.fail("bonded-outside-tolerance", f"{g.name}: atoms {e} are bonded at distance "
+                self.fail(pre + "bonded-outside-tolerance", f"{g.name}: atoms {e} are bonded at distance "
                           f"{math.sqrt(float(ex.d2[e[0]][e[1]])):.6f} > tolerance-scaled equilibrium length "
                           f"{float(ex.thr[e]):.6f}", rep)
         for e in sorted(ex.within - edges - ex.near):
@@ -452,7 +460,7 @@ class Oracles:
             if not ok:
                 why = "neither atom is over-coordinated" if not (set(e) & set(ex.overcoordinated)) else \
                     "an atom keeps a longer bond than the one removed"
-                self.fail("within-tolerance-not-bonded", f"{g.name}: atoms {e} are within tolerance "
+                self.fail(pre + "within-tolerance-not-bonded", f"{g.name}: atoms {e} are within tolerance "
                           f"({math.sqrt(float(ex.d2[e[0]][e[1]])):.6f} <= {float(ex.thr[e]):.6f}) but not bonded and "
                           f"{why}", rep)
         return r
@@ -556,24 +564,133 @@ class Oracles:
             return      # the property exempts structures with over-coordinated atoms
         lin, pla = self.shape(h)
         ctx.count("impl-oracle:permutations", (g.name, tuple(sigma), "shape"), nontrivial=g.n >= 3)
-        if base["lin_ok"] and linear_margin_ok(h, self.ct) and lin != base["shape"][0]:
-            dev = line_deviation_deg(g)
-            # tolerance band: bends between a quarter of and five times the 1 degree tolerance
-            key = "is_linear|permutation|near-threshold" if 0.25 <= dev <= 5.0 else "is_linear|permutation"
-            self.fail(key, f"{g.name}: is_linear {base['shape'][0]} -> {lin} when the atoms are listed as {list(sigma)} "
-                      f"(largest angular deviation from a line {dev:.3f} deg)", rep)
-        if base["pla_ok"] and planar_margin_ok(h, self.ptol) and pla != base["shape"][1]:
-            dev = plane_deviation(g)
-            # tolerance band of the un-normalised test |n| * distance > 1e-4 with |n| in about [1e-2, 1e2]
-            key = "is_planar|permutation|near-threshold" if 1e-6 <= dev <= 0.05 else "is_planar|permutation"
-            self.fail(key, f"{g.name}: is_planar {base['shape'][1]} -> {pla} when the atoms are listed as {list(sigma)} "
-                      f"(largest distance from the best plane {dev:.4f} A)", rep)
+        self.shape_after_relisting(g, h, base, sigma, lin, pla, rep, "new species")
         if do_sn and base["sn"] is not None and lin == base["shape"][0]:
             ctx.count("impl-oracle:symmetry-number", (g.name, tuple(sigma)), nontrivial=g.n >= 2)
             s = self.sn(h)
             if s != base["sn"]:
                 self.fail("sn|permutation", f"{g.name}: symmetry number {base['sn']} -> {s} when the atoms are listed as "
                           f"{list(sigma)}", rep)
+
+    # -- make_graph with a SEQUENCE of tolerances on one species in one process: every graph must obey
+    #    the distance criterion for THAT tolerance (the graph is a function of geometry and tolerance)
+    def tolerance_sequence(self, g, seq):
+        from autode.mol_graphs import make_graph
+        ctx, sp = self.ctx, species_of(g)
+        if Exact(g).radius_error:
+            return
+        for k, t in enumerate(seq):
+            if t is None:
+                make_graph(sp)
+                tol = self.rel
+            else:
+                make_graph(sp, rel_tolerance=t)
+                tol = t
+            ex = Exact(g, rel_tol=tol)
+            edges = norm_edges(sp.graph)
+            ctx.count("impl-oracle:tolerance-sequence", (g.name, k, tol), nontrivial=g.n >= 2 and tol != self.rel)
+            rep = {"kind": "tolerance-sequence", "structure": g.replay(), "sequence": list(seq), "step": k,
+                   "rel_tolerance": tol, "edges": edges}
+            if ex.near:
+                ctx.hist("impl-oracle:tolerance-sequence", "margin-skipped")
+                continue
+            self.rules(g, ex, set(edges), rep, pre=f"rel_tolerance-sequence|")
+            self.seq_records.append((g, tol, edges, ex))
+
+    # -- Species.reorder_atoms(mapping) on a species that already holds a perceived graph
+    def reorder_api(self, g, ex, base, sigma, do_sn):
+        from autode.mol_graphs import make_graph
+        ctx, n = self.ctx, g.n
+        if ex.radius_error:
+            return
+        sp = species_of(g)
+        make_graph(sp)
+        old = norm_edges(sp.graph)
+        mapping = {i: int(sigma[i]) for i in range(n)}
+        sp.reorder_atoms(mapping=mapping)
+        rep = {"kind": "reorder", "structure": g.replay(), "sigma": list(sigma)}
+        ctx.count("impl-oracle:reorder_atoms", (g.name, tuple(sigma)), nontrivial=list(sigma) != sorted(sigma))
+        ctx.hist("impl-oracle:reorder_atoms", "self-inverse" if all(sigma[sigma[i]] == i for i in range(n)) else "not-self-inverse")
+        h = g.permuted(sigma, "reordered")
+        hf = h.floats()
+        for k in range(n):
+            if sp.atoms[k].label != h.syms[k] or max(abs(a - b) for a, b in zip(sp.atoms[k].coord, hf[k])) > 1e-12:
+                self.fail("reorder_atoms|atoms", f"{g.name}: after reorder_atoms({mapping}) position {k} holds "
+                          f"{sp.atoms[k]} instead of atom {sigma.index(k)} of the original", rep)
+                return
+        got = norm_edges(sp.graph)
+        want = sorted((min(sigma[i], sigma[j]), max(sigma[i], sigma[j])) for i, j in old)
+        if got != want:
+            self.fail("reorder_atoms|graph-relabel", f"{g.name}: after reorder_atoms({mapping}) the graph has edges {got}; the "
+                      f"original edges {old} relabelled old -> mapping[old] are {want}", rep)
+        labels = [sp.graph.nodes[k].get("atom_label") for k in range(n)]
+        if labels != [a.label for a in sp.atoms]:
+            self.fail("reorder_atoms|node-labels", f"{g.name}: after reorder_atoms({mapping}) node labels {labels} but atoms "
+                      f"{[a.label for a in sp.atoms]}", rep)
+        self.reorder_records.append((g, list(sigma), got))
+        if not ex.graph_decidable() or ex.radius_error:
+            return
+        if not ex.overcoordinated:
+            fresh = impl_graph(h)
+            if fresh[0] == "ok" and fresh[1] != got:
+                self.fail("reorder_atoms|graph-vs-fresh", f"{g.name}: after reorder_atoms({mapping}) the graph {got} differs "
+                          f"from the graph perceived afresh from the reordered atoms {fresh[1]}", rep)
+            bm = sp.bond_matrix
+            exh = Exact(h)
+            bad = [(i, j) for i in range(n) for j in range(i + 1, n)
+                   if bool(bm[i, j]) != ((i, j) in exh.within) or bool(bm[j, i]) != bool(bm[i, j])]
+            if bad and not exh.near:
+                i, j = bad[0]
+                self.fail("reorder_atoms|bond-matrix", f"{g.name}: after reorder_atoms({mapping}) bond_matrix[{i},{j}] = "
+                          f"{bool(bm[i, j])} but the atoms are {math.sqrt(float(exh.d2[i][j])):.4f} apart, cut-off "
+                          f"{float(exh.thr[(i, j)]):.4f} ({len(bad)} such pairs)", rep)
+            lin, pla = bool(sp.is_linear()), bool(sp.is_planar())
+            self.shape_after_relisting(g, h, base, sigma, lin, pla, rep, "reorder_atoms")
+            if do_sn and base["sn"] is not None and lin == base["shape"][0]:
+                ctx.count("impl-oracle:symmetry-number", (g.name, "reorder", tuple(sigma)), nontrivial=True)
+                sn = int(sp.sn)
+                if sn != base["sn"]:
+                    self.fail("sn|permutation", f"{g.name}: symmetry number {base['sn']} -> {sn} after reorder_atoms({mapping})", rep)
+
+    def shape_after_relisting(self, g, h, base, sigma, lin, pla, rep, how):
+        if base["lin_ok"] and linear_margin_ok(h, self.ct) and lin != base["shape"][0]:
+            dev = line_deviation_deg(g)
+            # tolerance band: bends between a quarter of and five times the 1 degree tolerance
+            key = "is_linear|permutation|near-threshold" if 0.25 <= dev <= 5.0 else "is_linear|permutation"
+            self.fail(key, f"{g.name}: is_linear {base['shape'][0]} -> {lin} when the atoms are listed as {list(sigma)} "
+                      f"({how}; largest angular deviation from a line {dev:.3f} deg)", rep)
+        if base["pla_ok"] and planar_margin_ok(h, self.ptol) and pla != base["shape"][1]:
+            dev = plane_deviation(g)
+            # tolerance band of the un-normalised test |n| * distance > 1e-4 with |n| in about [1e-2, 1e2]
+            key = "is_planar|permutation|near-threshold" if 1e-6 <= dev <= 0.05 else "is_planar|permutation"
+            self.fail(key, f"{g.name}: is_planar {base['shape'][1]} -> {pla} when the atoms are listed as {list(sigma)} "
+                      f"({how}; largest distance from the best plane {dev:.4f} A)", rep)
+
+
+def reorder_sigmas(rng, n, full):
+    """all permutations for n <= 4; else a 3-cycle, the cyclic shifts +1 / -1 and random ones"""
+    import itertools
+    if n <= 4:
+        return [list(p) for p in itertools.permutations(range(n))]
+    out = [[(i + 1) % n for i in range(n)], [(i - 1) % n for i in range(n)]]
+    a, b, c = rng.sample(range(n), 3)
+    cyc = list(range(n))
+    cyc[a], cyc[b], cyc[c] = b, c, a
+    out.append(cyc)
+    for _ in range(4 if full else 1):
+        p = list(range(n))
+        rng.shuffle(p)
+        out.append(p)
+    return out
+
+
+TOL_SEQUENCE = [None, 0.1, None, 0.5, 0.05, 0.3]
+STRETCH = [F(70, 64), F(76, 64), F(80, 64), F(88, 64), F(94, 64)]
+
+
+def stretched(rng, g):
+    sc = rng.choice(STRETCH)
+    return Geo(f"{g.name}|stretch{sc}", g.kind, g.syms, [[g64(float(v * sc)) for v in p] for p in g.xyz])
 
 
 def index_tuples(rng, g, k):
@@ -718,6 +835,38 @@ def model_terms(ctx, structs, frs, consts, terms, descr, rng, nmax):
         ctx.cov["streams"].setdefault("model-vs-impl:" + ("graph" if k == "graph" else "shape"), {"evaluations": 0, "distinct_nontrivial": 0})[f"margin_skipped_{k}"] = v
 
 
+def record_terms(ctx, orc, terms, descr, nmax, limit):
+    """the graphs the implementation returned in the tolerance-sequence and reorder_atoms streams,
+    against the model with THAT tolerance / the relabelled model graph"""
+    import autode.atoms as A
+
+    def el_of(g):
+        return coq_list([f"{A.elements.index(s)}%nat" for s in g.syms])
+    seq = [r for r in orc.seq_records if r[0].n <= nmax and not r[3].near and not r[3].cut_tie]
+    seq = [r for r in seq if abs(r[1] - orc.rel) > 1e-12] + [r for r in seq if abs(r[1] - orc.rel) <= 1e-12]
+    for g, tol, edges, _ in seq[:limit]:
+        terms.append(f"check_graph {qc(tol)} {el_of(g)} {coq_ps(g)} {coq_gres(('ok', edges))}")
+        d = {"kind": "graph@rel_tolerance", "structure": g.replay(), "rel_tolerance": tol, "impl": edges, "stream": "tolerance-sequence"}
+        descr.append(d)
+        ctx.count("model-vs-impl:tolerance-sequence", (g.name, tol), g.n >= 2, sample=d)
+    k = 0
+    cache = {}
+    for g, sigma, edges in orc.reorder_records:
+        if g.n > nmax or k >= limit:
+            continue
+        if g.name not in cache:
+            ex = Exact(g)
+            cache[g.name] = not ex.near and not ex.cut_tie and not ex.radius_error
+        if not cache[g.name]:
+            continue
+        k += 1
+        terms.append(f"check_reorder {qc(orc.rel)} {el_of(g)} {coq_ps(g)} {coq_list([f'{x}%nat' for x in sigma])} "
+                     + coq_list([f"({i}, {j})%nat" for i, j in edges]))
+        d = {"kind": "reorder_atoms", "structure": g.replay(), "sigma": sigma, "impl": edges, "stream": "reorder_atoms"}
+        descr.append(d)
+        ctx.count("model-vs-impl:reorder_atoms", (g.name, tuple(sigma)), sigma != sorted(sigma), sample=d)
+
+
 # ----------------------------------------------------------------------------------- run
 def build_structures(ctx):
     full = not ctx.quick
@@ -755,6 +904,12 @@ def run_oracles(ctx, structs, consts):
             if g.n >= 3:
                 # bring the last atoms to the front (changes which atoms define the line / plane)
                 orc.permutation(g, ex, base, [(i + 2) % g.n for i in range(g.n)], False)
+            if g.kind != "jitter" or full:
+                for sigma in reorder_sigmas(rng, g.n, full):
+                    orc.reorder_api(g, ex, base, sigma, do_sn and g.kind != "rdkit" and g.n <= 6)
+                orc.tolerance_sequence(g, TOL_SEQUENCE)
+                for _ in range(2 if full else 1):
+                    orc.tolerance_sequence(stretched(rng, g), TOL_SEQUENCE)
     return orc
 
 
@@ -800,6 +955,7 @@ def run(ctx):
         table_terms(ctx, terms, descr)
         frs = frames(ctx.rng, 2, 2)[1:]
         model_terms(ctx, T + Rk + J, frs, consts, terms, descr, ctx.rng, 18 if full else 10)
+        record_terms(ctx, orc, terms, descr, 18 if full else 10, 400 if full else 90)
         bad, corr_err = ctx.coq_bad_indices(PRE, terms, per_file=120, name="c03cases")
         corr_bad = [(descr[i], terms[i]) for i in bad]
         ctx.log(f"correspondence: {len(terms)} cases, {len(corr_bad)} disagreements" + (f"; coq error {corr_err[:300]}" if corr_err else ""))
@@ -840,6 +996,10 @@ def replay(ctx, obj):
         orc.frame(g, ex, base, fr, base["sn"] is not None, idx, orc.geom_values(g, idx))
     elif rep.get("kind") == "permutation":
         orc.permutation(g, ex, base, rep["sigma"], base["sn"] is not None)
+    elif rep.get("kind") == "reorder":
+        orc.reorder_api(g, ex, base, rep["sigma"], base["sn"] is not None)
+    elif rep.get("kind") == "tolerance-sequence":
+        orc.tolerance_sequence(g, rep["sequence"])
     # the same structure on the model (Coq), compared with what the implementation returns now
     terms, descr = [], []
     model_terms(ctx, [g], [], consts, terms, descr, ctx.rng, 10**6)
@@ -853,7 +1013,7 @@ def replay(ctx, obj):
 MANIFEST = {
     "technique": "Coq proof over a hand model whose tables and threshold tests are regenerated from source (ast translator) "
                  "+ model/implementation correspondence in exactly rotated / reflected frames + implementation-side frame, "
-                 "reflection and permutation oracles",
+                 "reflection, permutation, reorder_atoms and tolerance-sequence oracles",
     "level_text": ("Machine-checked theorems (coq/C03/Props.v, closed under the global context) for EVERY atom count, every "
                    "orthogonal matrix R (R^T R = I, hence det R = +-1) and translation: squared distances, the cosine of "
                    "every angle and both dihedral numerators are invariant under proper rigid motion, the dihedral sine "
